@@ -515,6 +515,20 @@ theorem shared_jp_write_inventory :
      Gen.SharedObj.jpNamedEntries.all (·.2) && (Gen.SharedObj.jpBuilders == jpBuildersExpected) &&
      decide (20 ≤ Gen.SharedObj.jpSharedParams) && (Gen.SharedObj.jpPrivatePathParams == ["cp", "path", "pp"])) = true := by decide
 
+/-- the entry points the harness' shared-object inventory runs (`harness/reuse/inventory.go`, table `invCovered`;
+the harness compares that table with the method sets of the tree under test by reflection) -/
+def inventoryRuns : List String :=
+  ["Expr.Append", "Expr.BracketString", "Expr.Del", "Expr.DelOne", "Expr.First", "Expr.FirstFound", "Expr.FirstNode", "Expr.Get",
+   "Expr.GetNodes", "Expr.Has", "Expr.Locate", "Expr.Modify", "Expr.ModifyOne", "Expr.MustDel", "Expr.MustDelOne", "Expr.MustModify",
+   "Expr.MustModifyOne", "Expr.MustRemove", "Expr.MustRemoveOne", "Expr.MustSet", "Expr.MustSetOne", "Expr.Normal", "Expr.Remove",
+   "Expr.RemoveOne", "Expr.Set", "Expr.SetOne", "Expr.String", "Expr.Walk", "Filter.Append", "Filter.String", "Filter.Walk",
+   "Script.Append", "Script.Eval", "Script.Inspect", "Script.Match", "Script.String"]
+
+/-- **the run-time inventory covers the entry points of the write inventory** (generated): the exported methods of
+Expr, Script and Filter other than the path builders are exactly the ones the harness stream runs — a new
+exported method is an entry point nobody runs until it is added to both -/
+theorem shared_inventory_covers_entries : (Gen.SharedObj.jpSharedTypeEntries == inventoryRuns) = true := by decide
+
 /-- the condition under which `registerComposer` takes its NOT-yet-registered branch -/
 def freshRegistration : String := "c == nil || c.rtype != rt"
 
@@ -565,6 +579,19 @@ theorem C08_registered_fill_no_write (r : Reuse.Shared.Regy) (t : Reuse.Shared.T
 /-- satisfiable, with the short name owned by the other twin -/
 example : Reuse.Shared.twins.Registered ⟨0, "RTwin", "reuse/RTwin"⟩ := ⟨0, ⟨0, some 9⟩, by decide, by decide, rfl⟩
 
+/-- **"registered beforehand" is needed** (for every registry): filling a value of a struct type the registry does not
+hold — neither under its full name nor, as this type, under its short name — WRITES the registry (a new entry,
+two keys), whichever form the already-registered branch has: the clause of the property is not decoration -/
+theorem C08_unregistered_fill_writes (g : Bool) (r : Reuse.Shared.Regy) (t : Reuse.Shared.Ty) (h : r.Unregistered t)
+    (hs : ∀ i c, r.find t.short = some i → r.ents[i]? = some c → c.rtype ≠ t.id) :
+    (Reuse.Shared.lookup g r t).1.ents.length = r.ents.length + 1 ∧ (Reuse.Shared.lookup g r t).1 ≠ r :=
+  Reuse.Shared.lookup_unregistered_writes g r t h hs
+
+/-- satisfiable: a type the twins registry has never seen -/
+example : Reuse.Shared.twins.Unregistered ⟨7, "Other", "pkg/Other"⟩ ∧
+    (∀ i c, Reuse.Shared.twins.find "Other" = some i → Reuse.Shared.twins.ents[i]? = some c → c.rtype ≠ 7) := by
+  constructor <;> (intro i c hf; simp [Reuse.Shared.Regy.find, Reuse.Shared.twins, List.lookup] at hf)
+
 /-- seeded change C08-m8 at this level: the same look-up without the guard wipes the shadowed type's function -/
 theorem C08_registered_fill_unguarded_witness :
     (Reuse.Shared.lookup false Reuse.Shared.twins ⟨0, "RTwin", "reuse/RTwin"⟩).1.ents = [⟨0, none⟩, ⟨1, none⟩] ∧
@@ -586,11 +613,13 @@ through the receiver (the conversion functions are only ranged over; the caller'
 theorem shared_converter_write_inventory :
     (Gen.SharedObj.converterSharedWrites.isEmpty && decide (2 ≤ Gen.SharedObj.converterReached)) = true := by decide
 
-/-- finding C08-asm-plan-lazy-compile is present in the source (flip to `false` when the proposed fix
-notes/proposed_fixes/C08_asm_plan_lazy_compile.md is applied) -/
-def planLazyCompile : Bool := true
+/-- finding C08-asm-plan-lazy-compile: present in the source up to 4f445c7 (`true`), FIXED by 4f445c7
+(notes/proposed_fixes/C08_asm_plan_lazy_compile.md, applied): `false` — the lists below must be empty -/
+def planLazyCompile : Bool := false
 
-/-- **a compiled asm.Plan** (generated; asm.Plan is not named in C08's statement): `(*Fn).compile` is
+/-- **a compiled asm.Plan** (generated; asm.Plan is not named in C08's statement; regression tripwire for fix 4f445c7,
+written for both states of the flag `planLazyCompile`, which is `false` now: NO write into an executing plan).
+Before the fix: `(*Fn).compile` is
 called by the constructor `NewPlan`, by itself, and — DURING evaluation — by `evalValue`; the
 functions other than `NewPlan` that give a Fn an argument list that is a SLICE of somebody else's list
 instead of a copy are exactly `evalValue` (`af.Args = tv[1:]`) and `(*Fn).compile` (`af.Args = list[1:]`):
